@@ -788,3 +788,259 @@ Proof.
     + exact SI.
   - eapply sinv_same; [apply same_yield|exact SI].
 Qed.
+
+Lemma NoDup_app_comm_local (a b : list nat) : NoDup (a ++ b) -> NoDup (b ++ a).
+Proof. intros H. apply (Permutation_NoDup (l := a ++ b)); [apply Permutation_app_comm|exact H]. Qed.
+
+Lemma NoDup_app_swap_rev (a b : list nat) : NoDup (a ++ b) -> NoDup (b ++ rev a).
+Proof.
+  intros H. apply NoDup_app_comm_local in H. revert H.
+  intros H. apply (Permutation_NoDup (l := b ++ a)); [|exact H].
+  apply Permutation_app_head. apply Permutation_rev.
+Qed.
+
+(* ================================================================ part 3: reachability and the property lemmas *)
+Inductive reachable (ops : list (list Z)) : st -> Prop :=
+| r_init : reachable ops (init ops)
+| r_step s t : reachable ops s -> enabled s t = true -> reachable ops (fst (fst (tstep s t))).
+
+Lemma decode_task_pc l x : In x (decode_task l) -> tpc x = PStep.
+Proof.
+  unfold decode_task. intros H.
+  repeat match type of H with
+  | In _ (match ?e with _ => _ end) => destruct e; cbn [In] in H; try contradiction
+  end.
+  destruct H as [<-|[]]. reflexivity.
+Qed.
+
+Lemma init_pc ops c : tpc (gtask (init ops) c) = PStep \/ tpc (gtask (init ops) c) = PDone.
+Proof.
+  unfold gtask, init. cbn [tasks].
+  destruct (nth_in_or_default c (flat_map decode_task ops) dflt_task) as [H|H].
+  - left. apply in_flat_map in H. destruct H as (l & _ & H). eapply decode_task_pc. exact H.
+  - right. rewrite H. reflexivity.
+Qed.
+
+Lemma init_cls ops c : cls (tvs (init ops) c) = CNeutral.
+Proof. unfold tvs, tvw. destruct (init_pc ops c) as [-> | ->]; reflexivity. Qed.
+
+Lemma init_inv ops : SInv (init ops).
+Proof.
+  split.
+  - unfold init. cbn [next tasks]. apply repeat_length.
+  - constructor; cbn [vw v_req v_q v_next v_dn v_err v_own v_gs v_gq v_al v_gl v_tv].
+    + intros c L. unfold init in L. cbn [next] in L. rewrite repeat_length in L.
+      unfold tvs, gtask, init. cbn [tasks]. rewrite nth_overflow by exact L. reflexivity.
+    + reflexivity.
+    + intros c. rewrite init_cls. discriminate.
+    + intros c. rewrite init_cls. cbn. split; discriminate.
+    + intros c. rewrite init_cls. cbn. split; [discriminate|tauto].
+    + constructor.
+    + auto.
+    + discriminate.
+    + intros o. rewrite init_cls. discriminate.
+    + reflexivity.
+    + intros o. rewrite init_cls. discriminate.
+    + reflexivity.
+    + reflexivity.
+Qed.
+
+Lemma reachable_inv ops s : reachable ops s -> SInv s.
+Proof. induction 1 as [|s t _ IH En]; [apply init_inv|apply step_inv; assumption]. Qed.
+
+(* ---------- the vocabulary of the property statements, in terms of program counters ---------- *)
+(* c owns the mutex: from the successful CAS / the hand-over up to the end of its unlock *)
+Definition holds (s : st) (c : nat) : Prop :=
+  match tpc (gtask s c) with
+  | PPub0 | PBqS | PCs | PUnlock | PBqU => True
+  | PPubW | PFlag => flag (gtask s c) = true
+  | _ => False
+  end.
+(* c has published a request that has not been granted *)
+Definition waiting (s : st) (c : nat) : Prop :=
+  match tpc (gtask s c) with
+  | PParked => True
+  | PPubW | PFlag => flag (gtask s c) = false
+  | _ => False
+  end.
+
+Lemma holds_cls s c : Inv (vw s) -> (holds s c <-> is_hold (cls (tvs s c)) = true).
+Proof.
+  intros I. pose proof (i_bad _ I c) as B. cbn [vw v_tv] in B. unfold holds, tvs, tvw in *.
+  destruct (tpc (gtask s c)), (tk (gtask s c)), (flag (gtask s c)); cbn in *;
+    try tauto; try (split; [tauto|discriminate]); try (split; [discriminate|discriminate]).
+Qed.
+
+Lemma waiting_cls s c : Inv (vw s) -> (waiting s c <-> cls (tvs s c) = CWait).
+Proof.
+  intros I. pose proof (i_bad _ I c) as B. cbn [vw v_tv] in B. unfold waiting, tvs, tvw in *.
+  destruct (tpc (gtask s c)), (tk (gtask s c)), (flag (gtask s c)); cbn in *;
+    try tauto; try (split; [tauto|discriminate]); try (split; [discriminate|discriminate]);
+    try (split; [contradiction|discriminate]).
+Qed.
+
+(* C07 *)
+Lemma mutual_exclusion ops s i j : reachable ops s -> holds s i -> holds s j -> i = j.
+Proof.
+  intros R Hi Hj. destruct (reachable_inv _ _ R) as [_ I].
+  apply (holds_cls s i I) in Hi. apply (holds_cls s j I) in Hj.
+  apply (i_own _ I) in Hi. apply (i_own _ I) in Hj. cbn [vw v_own] in *. congruence.
+Qed.
+
+Lemma grant_once ops s : reachable ops s ->
+  exists pending, alog s = glog s ++ pending /\ NoDup pending /\
+    (forall w, In w pending <-> waiting s w) /\ (forall w, waiting s w -> ~ holds s w).
+Proof.
+  intros R. destruct (reachable_inv _ _ R) as [_ I].
+  exists (gqueue s ++ rev (gstack s)). split; [apply (i_fifo _ I)|]. split; [|split].
+  - pose proof (i_nodup _ I) as ND. cbn [vw v_gs v_gq] in ND.
+    apply NoDup_app_swap_rev. exact ND.
+  - intros w. rewrite (waiting_cls s w I). pose proof (i_wait _ I w) as W. cbn [vw v_gs v_gq v_tv] in W.
+    rewrite W. rewrite !in_app_iff, <- in_rev. tauto.
+  - intros w Ww Hw. apply (waiting_cls s w I) in Ww. apply (holds_cls s w I) in Hw. rewrite Ww in Hw. discriminate.
+Qed.
+
+(* the tail of await_suspend after the publishing CAS (thread at "m_pub" on behalf of coroutine c) touches
+   neither the mutex nor any task's kind/pc/flag — whatever happened to c in between (c may already have been
+   granted the mutex and be running on another thread); and the other two continuations after the publishing
+   CAS only move the publisher's own pc: the decision was taken from the value the CAS returned *)
+Lemma not_while_suspending s t c : run (gthr s t) = TSusp c ->
+  let s' := fst (fst (tstep s t)) in
+  requests s' = requests s /\ queue s' = queue s /\ next s' = next s /\ dnext s' = dnext s /\
+  owner s' = owner s /\ alog s' = alog s /\ glog s' = glog s /\
+  (forall x, tk (gtask s' x) = tk (gtask s x) /\ tpc (gtask s' x) = tpc (gtask s x) /\ flag (gtask s' x) = flag (gtask s x)).
+Proof.
+  intros R. unfold tstep. rewrite R. cbn [fst].
+  destruct (same_yield s t) as ((E1 & E2 & E3 & E4 & _ & E6 & _ & _ & E9 & E10 & E11) & _).
+  cbn [vw v_req v_q v_next v_dn v_err v_own v_gs v_gq v_al v_gl v_tv] in *.
+  repeat split; try (symmetry; assumption); specialize (E11 x); unfold tvs, tvw in E11; inversion E11; reflexivity.
+Qed.
+
+Lemma after_publish_local s t c : run (gthr s t) = TRun c ->
+  (tpc (gtask s c) = PPub0 -> fst (fst (tstep s t)) = set_pc s c PBqS) /\
+  (tpc (gtask s c) = PPubW -> fst (fst (tstep s t)) = set_pc s c PFlag).
+Proof. intros R. unfold tstep. rewrite R. split; intros ->; reflexivity. Qed.
+
+(* a parked coroutine is resumed only by a hand-over, and only coroutines are ever parked *)
+Lemma suspended_is_coroutine ops s c : reachable ops s -> tpc (gtask s c) = PParked -> tk (gtask s c) = KCoro /\ waiting s c.
+Proof.
+  intros R P. destruct (reachable_inv _ _ R) as [_ I]. pose proof (i_bad _ I c) as B.
+  cbn [vw v_tv] in B. unfold tvs, tvw in B. rewrite P in B. unfold waiting. rewrite P.
+  destruct (tk (gtask s c)); [tauto|]. exfalso. apply B. reflexivity.
+Qed.
+
+Lemma sentinel_never_queued ops s : reachable ops s ->
+  err s = false /\ dnext s = PNull /\ (queue s = PNull \/ exists w, queue s = PNode w /\ waiting s w).
+Proof.
+  intros R. destruct (reachable_inv _ _ R) as [_ I].
+  split; [apply (i_err _ I)|]. split; [apply (i_dn _ I)|].
+  pose proof (i_queue _ I) as Q. cbn [vw v_next v_q v_gq] in Q.
+  destruct (gqueue s) as [|w r] eqn:G; cbn [repr] in Q; [left; exact Q|].
+  right. exists w. split; [apply Q|]. apply (waiting_cls s w I). apply (i_wait _ I).
+  cbn [vw v_gs v_gq]. rewrite G. apply in_or_app. right. left. reflexivity.
+Qed.
+
+(* C08 *)
+(* grants are a prefix of the publishing CASes; what is pending is, in order, the owner-private queue
+   followed by the reversed request stack — both are the chains actually present in memory *)
+Lemma fifo ops s : reachable ops s ->
+  exists stack fifo_q b,
+    repr (next s) (requests s) stack b /\ repr (next s) (queue s) fifo_q PNull /\
+    (b = PNull /\ stack = [] \/ b = PDoor \/ exists o, b = PNode o /\ holds s o /\ gnext s o = PNull /\ fifo_q = []) /\
+    alog s = glog s ++ fifo_q ++ rev stack.
+Proof.
+  intros R. destruct (reachable_inv _ _ R) as [_ I].
+  exists (gstack s), (gqueue s).
+  destruct (owner s) as [o|] eqn:O.
+  - exists (bottom (vw s) o). split; [apply (i_stack _ I); exact O|]. split; [apply (i_queue _ I)|].
+    split; [|apply (i_fifo _ I)].
+    unfold bottom. destruct (cls (v_tv (vw s) o)) eqn:C; auto.
+    right. right. exists o. split; [reflexivity|].
+    split; [apply (holds_cls s o I); cbn [vw v_tv] in C; rewrite C; reflexivity|].
+    apply (i_bot _ I o C).
+  - exists PNull. destruct (i_free _ I O) as (A & B & C). cbn [vw v_req v_gs v_gq] in A, B, C.
+    split; [rewrite A, B; reflexivity|]. split; [apply (i_queue _ I)|]. split; [auto|apply (i_fifo _ I)].
+Qed.
+
+(* whenever a request is pending the mutex is not free and has an owner: in particular the state right after
+   a release with waiters (unlock never stores null then; ownership went to a waiter or is still being passed) *)
+Lemma direct_handoff ops s w : reachable ops s -> waiting s w -> requests s <> PNull /\ exists o, holds s o /\ o <> w.
+Proof.
+  intros R W. destruct (reachable_inv _ _ R) as [_ I].
+  apply (waiting_cls s w I) in W. pose proof (proj1 (i_wait _ I w) W) as M. cbn [vw v_gs v_gq] in M.
+  destruct (owner s) as [o|] eqn:O.
+  - split.
+    + intro E. apply (inv_req_null _ I) in E. cbn [vw v_own] in E. congruence.
+    + exists o. assert (H : is_hold (cls (tvs s o)) = true) by (apply (i_own _ I); exact O).
+      split; [apply (holds_cls s o I); exact H|]. intro; subst o. rewrite W in H. discriminate.
+  - exfalso. destruct (i_free _ I O) as (_ & B & C). cbn [vw v_gs v_gq] in B, C. rewrite B, C in M. contradiction.
+Qed.
+
+(* when nobody owns the mutex, nothing is pending, every published request was granted and it is free again *)
+Lemma no_lost_request ops s : reachable ops s -> (forall c, ~ holds s c) ->
+  requests s = PNull /\ queue s = PNull /\ alog s = glog s /\ forall w, ~ waiting s w.
+Proof.
+  intros R H. destruct (reachable_inv _ _ R) as [_ I].
+  assert (O : owner s = None).
+  { destruct (owner s) as [o|] eqn:O; [|reflexivity]. exfalso. apply (H o). apply (holds_cls s o I).
+    apply (i_own _ I). exact O. }
+  destruct (i_free _ I O) as (A & B & C). cbn [vw v_req v_gs v_gq] in A, B, C.
+  split; [exact A|]. split; [|split].
+  - pose proof (i_queue _ I) as Q. cbn [vw v_next v_q v_gq] in Q. rewrite C in Q. exact Q.
+  - pose proof (i_fifo _ I) as F. cbn [vw v_al v_gl v_gq v_gs] in F. rewrite F, B, C. cbn. rewrite app_nil_r. reflexivity.
+  - intros w W. apply (waiting_cls s w I) in W. apply (i_wait _ I) in W. cbn [vw v_gs v_gq] in W. rewrite B, C in W. contradiction.
+Qed.
+
+Lemma holds_same s s' c : same s s' -> (holds s c <-> holds s' c).
+Proof.
+  intros ((_ & _ & _ & _ & _ & _ & _ & _ & _ & _ & E) & _). specialize (E c). cbn [vw v_tv] in E.
+  unfold tvs, tvw in E. inversion E as [[E1 E2 E3]]. unfold holds. rewrite E2, E3. tauto.
+Qed.
+
+(* try_lock is one step; it succeeds exactly when nobody owns the mutex; a failed try changes nothing but the
+   caller's own bookkeeping (no request is published) *)
+Lemma try_lock ops s t c : reachable ops s -> run (gthr s t) = TRun c -> tpc (gtask s c) = PTry -> cacq (gtask s c) = ATry ->
+  let s' := fst (fst (tstep s t)) in
+  ((forall o, ~ holds s o) -> holds s' c /\ requests s' = PDoor /\ alog s' = alog s) /\
+  ((exists o, holds s o) -> s' = set_task s c (t_endround (gtask s c) true) /\ ~ holds s' c /\ ~ waiting s' c).
+Proof.
+  intros R Ru P A. destruct (reachable_inv _ _ R) as [L I].
+  assert (Lc : c < length (tasks s)) by (apply task_lt; rewrite P; discriminate).
+  unfold tstep. rewrite Ru, P. cbn zeta. split.
+  - intros F. assert (O : owner s = None).
+    { destruct (owner s) as [o|] eqn:O; [|reflexivity]. exfalso. apply (F o). apply (holds_cls s o I).
+      apply (i_own _ I). exact O. }
+    destruct (i_free _ I O) as (E & _ & _). cbn [vw v_req] in E. rewrite E. cbn [fst].
+    split; [|split; reflexivity].
+    apply (proj1 (holds_same _ _ c (same_enter _ c))).
+    unfold holds, set_pc. rewrite gtask_set_task by exact Lc. rewrite Nat.eqb_refl. reflexivity.
+  - intros (o & Ho). apply (holds_cls s o I) in Ho. apply (i_own _ I) in Ho. cbn [vw v_own] in Ho.
+    assert (E : requests s <> PNull).
+    { intro E. apply (inv_req_null _ I) in E. cbn [vw v_own] in E. congruence. }
+    destruct (requests s) eqn:Rq; [contradiction| |]; rewrite A; cbn [fst];
+      (split; [reflexivity|]); unfold holds, waiting; rewrite gtask_set_task by exact Lc; rewrite Nat.eqb_refl;
+      cbn [t_endround tpc]; tauto.
+Qed.
+
+(* ---------- every state visited by the executable scheduler is reachable ---------- *)
+Lemma enabled_list_sound s n : forall from i, In i (enabled_list s n from) -> enabled s i = true.
+Proof.
+  induction n as [|n IH]; intros from i H; cbn [enabled_list] in H; [contradiction|].
+  apply in_app_or in H. destruct H as [H|H]; [|eapply IH; exact H].
+  destruct (enabled s from) eqn:E; [|contradiction]. destruct H as [<-|[]]. exact E.
+Qed.
+
+Lemma run_sched_reachable ops fuel : forall s sched tr, reachable ops s -> reachable ops (fst (run_sched fuel s sched tr)).
+Proof.
+  induction fuel as [|fuel IH]; intros s sched tr R; cbn [run_sched]; [exact R|].
+  destruct (all_enabled s) as [|e en] eqn:A; [exact R|].
+  set (i := nth _ (e :: en) 0).
+  assert (In i (e :: en)).
+  { unfold i. apply nth_In. unfold zlen.
+    match goal with |- context [Z.to_nat (?k mod ?m)] => assert (0 <= k mod m < m)%Z by (apply Z.mod_pos_bound; cbn [length]; lia) end.
+    lia. }
+  assert (En : enabled s i = true) by (rewrite <- A in H; eapply enabled_list_sound; exact H).
+  destruct (tstep s i) as [[s1 p] c] eqn:T.
+  apply IH. replace s1 with (fst (fst (tstep s i))) by (rewrite T; reflexivity).
+  apply r_step; assumption.
+Qed.
